@@ -232,7 +232,16 @@ func genC10(r *simrt.Rand, tier string, idx uint64) *Plan {
 	case 4:
 		f.Kind = "killserver"
 	}
-	p.Clients = append(p.Clients, ClientPlan{Conn: 0, Ops: []Op{{Kind: "spin", N: r.Intn(40)}, {Kind: "sleep", N: []int{0, 0, 500, 1000}[r.Intn(4)]}, {Kind: "fault", Fault: &f}}})
+	delay := []int{0, 0, 500, 1000}[r.Intn(4)]
+	p.Clients = append(p.Clients, ClientPlan{Conn: 0, Ops: []Op{{Kind: "spin", N: r.Intn(40)}, {Kind: "sleep", N: delay}, {Kind: "fault", Fault: &f}}})
+	// streams that are being opened at the very moment of the fault
+	if f.Kind != "closestream" {
+		for c := 0; c < r.Intn(3); c++ {
+			k := len(p.Streams)
+			p.Streams = append(p.Streams, StreamPlan{Conn: 0, Echo: true, Sizes: []int{7}})
+			p.Clients = append(p.Clients, ClientPlan{Conn: 0, Ops: []Op{{Kind: "spin", N: r.Intn(40)}, {Kind: "sleep", N: delay}, {Kind: "sopen", Stream: k}, {Kind: "swrite", Stream: k, N: 1}, {Kind: "sread", Stream: k, N: 2}}})
+		}
+	}
 	p.Faults = []Fault{f} // informational (AtOp==0 and kind!=cut@connect: nothing is armed from here)
 	p.Faults[0].AtOp = -1
 	return p
@@ -243,6 +252,11 @@ func checkC10(w *World, run *simrt.Run) {
 	wholeConn := f.Kind != "closestream"
 	for _, s := range w.Streams {
 		if !s.Opened {
+			// the open may have been in flight when the connection ended: the client saw an
+			// error, but a handler the server started for it must still be released
+			if wholeConn && s.HandlerStart != 0 && s.HandlerEnd == 0 {
+				w.Violate("C10.handler-stuck", "handler-of-in-flight-open-stuck:"+f.Kind+":"+w.acceptMode(), fmt.Sprintf("stream %d: the open was in flight when the connection ended (client got %q); the server started its handler, which never returned (accept mode %s)", s.Idx, s.OpenErr, w.acceptMode()))
+			}
 			continue
 		}
 		affected := wholeConn || s.Idx == f.Stream
